@@ -244,7 +244,7 @@ func c03Run(c *vlib.Ctx, idx int, sc c03Scenario) {
 	case "sibling":
 		if sibling != nil && sibling.ID != victim.ID {
 			s.Master.SetTaskState(sibling.ID, "STANDBY")
-			s.Master.RawMessage(sibling.ID, []byte(fmt.Sprintf(`{"name":"MesosCommand_Transition","id":"bogus0000000000000000","environmentId":%q,"error":"","_messageType":"MesosCommandResponse","state":"STANDBY","taskId":%q}`, envID, sibling.ID)))
+			s.Master.RawMessage(sibling.ID, []byte(fmt.Sprintf(`{"name":"MesosCommand_Transition","id":"9m4e2mr0ui3e8a215n4g","environmentId":%q,"error":"","_messageType":"MesosCommandResponse","state":"STANDBY","taskId":%q}`, envID, sibling.ID)))
 		}
 	}
 	s.Master.Note("INJECT", map[string]interface{}{"kind": sc.Kind, "victim": victim.RolePath})
